@@ -71,6 +71,8 @@ type caseSpec struct {
 	// process after this case's signer has returned its result and before that
 	// result is applied
 	OvertakenBy string `json:"overtaken_by,omitempty"`
+	// Front: "" = the in-process mirror of `relic sign` (relicx); "cli" = the real relic binary
+	Front string `json:"front,omitempty"`
 }
 
 type finding struct {
@@ -256,13 +258,18 @@ func runCase(e *env, sh *shape, cs caseSpec) {
 			}
 		}
 	}
-	serr := signOnceThen(sh, cs.Key, in, out, afterSign)
+	sign := func() error { return signOnceThen(sh, cs.Key, in, out, afterSign) }
+	if cs.Front == "cli" {
+		hz += ":real-command-line"
+		sign = func() error { return signCLI(e, sh, cs.Key, in, out) }
+	}
+	serr := sign()
 	after, _ := os.ReadFile(in)
 	if serr != nil && bytes.Equal(after, input) {
 		// a refusal must be a function of the input: try again on the same (untouched) input
 		if _, err := os.Stat(out); cs.OutMode == "new" && err == nil {
 			// keep the first observation (output written despite error), judged below
-		} else if err2 := signOnceThen(sh, cs.Key, in, out, afterSign); err2 == nil {
+		} else if err2 := sign(); err2 == nil {
 			outcome("nondeterministic-refusal(first attempt failed, identical retry succeeded):" + sh.Type + ":" + errClass(serr))
 			serr = nil
 			after, _ = os.ReadFile(in)
@@ -498,6 +505,37 @@ func main() {
 				}
 			}
 		}
+	}
+	// front=cli: the hazard-free shapes of every type (and every shape of the types whose command has
+	// a step after the result is applied: PE) through the real binary, both output modes
+	if _, err := os.Stat(relicBin); err == nil {
+		for i := range all {
+			sh := &all[i]
+			if only != "" && !strings.Contains(sh.ID, only) {
+				continue
+			}
+			if len(sh.Parts) > 0 || sh.InName != "" || !(genericHazard(sh.Hazard) || sh.Type == "pe-coff") {
+				continue
+			}
+			keys := []string{"rsaA", "p256A"}
+			if sh.PGP {
+				keys = []string{"rsaA"}
+			}
+			for _, key := range keys {
+				for _, om := range []string{"same", "new"} {
+					if om == "same" && sh.NoSamePath {
+						continue
+					}
+					idx++
+					if idx%sn != si {
+						continue
+					}
+					runCase(e, sh, caseSpec{Shape: sh.ID, Key: key, OutMode: om, Front: "cli"})
+				}
+			}
+		}
+	} else {
+		run.Capped("the real relic binary was not built (pre.sh): front=cli cases not run")
 	}
 	// overtaken: the first (plain) shape of every type x the first shape of every
 	// type signed in between
